@@ -139,6 +139,19 @@ class ProgBase(plumpy.Process):
         if rec is not None:
             rec.ev('hook', 'played')
 
+    # (exit hooks that do not raise: the harness may act from inside them -- plan position ['exit', <state>, <n>])
+    def on_exit_running(self):
+        super().on_exit_running()
+        rec = getattr(self, '_rec', None)
+        if rec is not None:
+            rec.fire('exit', self, 'running')
+
+    def on_exit_waiting(self):
+        super().on_exit_waiting()
+        rec = getattr(self, '_rec', None)
+        if rec is not None:
+            rec.fire('exit', self, 'waiting')
+
     # -- recording --------------------------------------------------------------------------
     def _t(self, *item):
         item = list(item)
